@@ -886,3 +886,127 @@ func expandLeaves(v ssa.Value, subst map[ssa.Value]ssa.Value, depth int) []leaf 
 	}
 	return out
 }
+
+// ruleRecordOrigin: a record read from a container's stream carries that container's labels:
+// ParseLog keeps its resource argument in the iterator and Next stamps every record it fills with
+// exactly that resource, unconditionally (records are reused across sources by the merge iterator).
+func ruleRecordOrigin(r *Run) {
+	p := r.P
+	pl := p.Func(dockerlogPkg, "ParseLog")
+	nx := p.Method(dockerlogPkg, "streamIter", "Next")
+	o := r.Ob("PV-PAIR", "dockerlog.(*streamIter).Next origin", "every record a stream iterator fills is stamped with the resource (container labels) the iterator was created for, whatever the record held before")
+	if pl == nil || nx == nil || len(pl.Params) != 2 || len(nx.Params) != 2 {
+		o.Fail("-", "ParseLog / streamIter.Next not found")
+		return
+	}
+	bad := false
+	// ParseLog: resource field := resource parameter
+	kept := false
+	for _, ret := range returnsOf(pl) {
+		for _, lv := range phiLeaves(ret.Results[0]) {
+			if al, ok := stripTypeOnly(lv).(*ssa.Alloc); ok {
+				if v, ok := allocFieldStores(al)["resource"]; ok && unspill(v) == ssa.Value(pl.Params[1]) {
+					kept = true
+				}
+			}
+		}
+	}
+	if !kept {
+		bad = true
+		o.Fail(r.pos(pl.Pos()), "ParseLog does not keep its resource argument in the iterator")
+	}
+	// Next: every value that reaches the record's ResourceAttrs is i.resource, and one is written on every path
+	recv, rec := nx.Params[0], nx.Params[1]
+	isRes := func(v ssa.Value) bool {
+		f, base, ok := loadOfField(unspill(v))
+		return ok && f == "resource" && base == ssa.Value(recv)
+	}
+	var writes []*ssa.Store
+	for _, gf := range funcGroup(nx) {
+		allInstrs(gf, func(in ssa.Instruction) {
+			st, ok := in.(*ssa.Store)
+			if !ok {
+				return
+			}
+			f, base, ok := fieldNameOf(st.Addr)
+			if !ok || f != "ResourceAttrs" {
+				return
+			}
+			// the record parameter itself, or a Record literal that is then assigned to *r
+			toRecord := base == ssa.Value(rec)
+			if al, ok := base.(*ssa.Alloc); ok && typeKey(al.Type()) == "Record" {
+				for _, ref := range *al.Referrers() {
+					if ld, ok := ref.(*ssa.UnOp); ok {
+						for _, r2 := range *ld.Referrers() {
+							if s2, ok := r2.(*ssa.Store); ok && s2.Addr == ssa.Value(rec) {
+								toRecord = true
+							}
+						}
+					}
+				}
+			}
+			if !toRecord {
+				return
+			}
+			writes = append(writes, st)
+			if !isRes(st.Val) {
+				bad = true
+				o.Fail(r.pos(st.Pos()), "the record's ResourceAttrs is set to %s, not to the iterator's own resource: a record reused from another container keeps that container's labels", describe(st.Val, 0))
+			}
+		})
+	}
+	must := false
+	for _, st := range writes {
+		all := st.Parent() == nx
+		for _, ret := range returnsOf(nx) {
+			if st.Parent() == nx && !instrDominates(st, ret) {
+				all = false
+			}
+		}
+		if all {
+			must = true
+		}
+	}
+	if !must {
+		bad = true
+		o.Fail(r.pos(nx.Pos()), "no unconditional write of the record's ResourceAttrs in Next (%d write(s) found)", len(writes))
+	}
+	if !bad {
+		o.OK("ParseLog keeps resource; Next writes ResourceAttrs = i.resource on every path").At(r.pos(nx.Pos()))
+	}
+}
+
+// ruleOpenLogContext: the log streams opened for several containers outlive SelectLogs (they are
+// read by the merge iterator afterwards), so they must be opened with the caller's context, not with
+// a context that is cancelled when the opening goroutines have finished (errgroup.WithContext).
+func ruleOpenLogContext(r *Run) {
+	p := r.P
+	dl := modPath + "/" + dockerlogPkg
+	sl := p.Method(dockerlogPkg, "Querier", "SelectLogs")
+	o := r.Ob("PV-ROLE", "dockerlog.(*Querier).SelectLogs openLog context", "every container's log stream is opened with the query's own context (a stream opened with a derived, already-cancelled context delivers no records)")
+	if sl == nil || len(sl.Params) < 2 {
+		o.Fail("-", "method not found")
+		return
+	}
+	grp := funcGroup(sl)
+	n, bad := 0, false
+	for _, gf := range grp {
+		for _, c := range callsIn(gf) {
+			if !callIs(c, dl, "(*Querier).openLog") {
+				continue
+			}
+			n++
+			if originValueIn(c.Common().Args[1], grp) != ssa.Value(sl.Params[1]) {
+				bad = true
+				o.Fail(r.pos(c.Pos()), "openLog is given the context %s, not SelectLogs' own ctx parameter", describe(originValueIn(c.Common().Args[1], grp), 1))
+			}
+		}
+	}
+	if n == 0 {
+		bad = true
+		o.Fail(r.pos(sl.Pos()), "no openLog call found")
+	}
+	if !bad {
+		o.OK("%d openLog call(s) use the query context", n).At(r.pos(sl.Pos()))
+	}
+}
